@@ -152,6 +152,25 @@ theorem emit_keys_correct (atoms : List Atom) (edges : List (Int × Int)) (p : P
     sel_getD_selected _ _ _ hc', rfl, rfl, ?_, hgt⟩
   exact constEntry_eq atoms edges p a c ha' hc'
 
+/-- **conn_loops_correct.** The three nested loops of `build_connectivity_matrix` (residue, residues within the
+cut-off, product of their atoms) followed by `fill_diagonal(False)` leave in cell (i, j) of the full matrix
+exactly "i ≠ j and the residue of j is within `sep` steps of the residue of i". -/
+theorem conn_loops_correct (atoms : List Atom) (E : List (ResKey × ResKey)) (sep i j : Nat)
+    (hi : i < atoms.length) (hj : j < atoms.length) :
+    mget (connFull atoms E sep) i j false =
+      (i != j && resConnected E sep (atomAt atoms i).res (atomAt atoms j).res) :=
+  mget_connFull atoms E sep i j hi hj
+
+/-- **domain_loop_correct.** The loop of `build_pair_matrix` over `combinations(selection, 2)` with its mirrored
+assignment leaves in cell (i, j) of the full matrix: both selected, i ≠ j, and the criterion evaluated on
+(earlier node, later node). -/
+theorem domain_loop_correct (names : List String) (atoms : List Atom) (d : Domain) (i j : Nat) :
+    mget (domFull (selection names atoms) atoms d) i j false =
+      ((selection names atoms).contains i && (selection names atoms).contains j &&
+        (if i < j then crit d (atomAt atoms i) (atomAt atoms j)
+         else if j < i then crit d (atomAt atoms j) (atomAt atoms i) else false)) :=
+  mget_domFull _ (selection_sorted _ _) _ (fun x hx => ((mem_selection _ _ _).mp hx).1) d i j
+
 /-- The sub-selection slicing itself: `M[:, sel][sel][a, c] = M[sel[a], sel[c]]`. -/
 theorem subselection_index {α} (M : List (List α)) (sel : List Nat) (d : α) (a c : Nat)
     (ha : a < sel.length) (hc : c < sel.length) :
